@@ -5,7 +5,7 @@ CONSTANTS
   Paths = {"p1", "p2"}
   Groups = {"peaks", "other"}
   SeedTuples <- SeedsTabT
-  OpNames = {"WriteText", "ReadText", "WriteHdf", "WriteHdfObj", "ReadHdf", "ReadAuto", "ReadMmap", "DropRow"}
+  OpNames = {"WriteText", "ReadText", "WriteHdf", "WriteHdfObj", "ReadHdf", "ReadAuto", "ReadMmap", "DropRow", "ConvHdf"}
   MaxDepth = 3
   EmitOn = TRUE
 INVARIANT TypeOK
